@@ -1834,6 +1834,34 @@ pub fn position_command_sessions(rep: &Reporter, tier: Tier, what: &str, n_lines
                 }
             }
         }
+        // prefixes and extensions of one game: every ordered pair of lengths 0..5 (stepping forwards
+        // and backwards through a game by one, two, three ... plies, as an analysis GUI does)
+        {
+            let mut line: Vec<String> = Vec::new();
+            let mut roots_along: Vec<Pos> = vec![base.clone()];
+            let mut q = base.clone();
+            for ply in 0..5 {
+                let l = q.legal();
+                if l.is_empty() {
+                    break;
+                }
+                // a quiet, varied choice: not always the first move
+                let m = l[(ply * 7 + 3) % l.len()];
+                q = q.make(&m);
+                if !q.has_legal_move() {
+                    break;
+                }
+                line.push(m.uci());
+                roots_along.push(q.clone());
+            }
+            for i in 0..=line.len() {
+                for j in 0..=line.len() {
+                    if i != j {
+                        jobs_a.push((position_line(&base, &line[..i]), roots_along[i].clone(), position_line(&base, &line[..j]), roots_along[j].clone()));
+                    }
+                }
+            }
+        }
         // FEN-field neighbours of the root itself
         let mut variants: Vec<Pos> = Vec::new();
         for edit in 0..5 {
